@@ -5,6 +5,7 @@ import (
 	"fmt"
 	"math/big"
 	"strconv"
+	"strings"
 	"time"
 
 	"elaverif/harness/hx"
@@ -50,8 +51,35 @@ func hashNumOf(raw []byte) *big.Int {
 	return blockchain.HashToBig(&hash)
 }
 
+// isCanonical is the harness's own statement of the `Canonical` predicate of
+// the Lean model (Model/Compact.lean); the rt op prints it so that the two are
+// compared on every generated compact value.
+func isCanonical(c uint32) bool {
+	if c == 0 {
+		return true
+	}
+	e, m := c>>24, c&0x007fffff
+	if c&0x00800000 != 0 || e < 1 || m < 0x8000 {
+		return false
+	}
+	if e == 1 && m&0xffff != 0 {
+		return false
+	}
+	if e == 2 && m&0xff != 0 {
+		return false
+	}
+	return true
+}
+
 func exec(t []string) string {
 	switch t[0] {
+	case "rt": // rt <compact>: BigToCompact(CompactToBig(c)) and whether c is canonical
+		c := u32hex(t[1])
+		tag := "non"
+		if isCanonical(c) {
+			tag = "canon"
+		}
+		return fmt.Sprintf("%x %s", blockchain.BigToCompact(blockchain.CompactToBig(c)), tag)
 	case "c2b":
 		return blockchain.CompactToBig(u32hex(t[1])).String()
 	case "b2c":
@@ -145,7 +173,15 @@ func genBig(r *hx.Rand) *big.Int {
 		nbytes = 1 + r.Intn(5)
 	}
 	b := r.Bytes(nbytes)
-	switch r.Intn(6) {
+	switch r.Intn(7) {
+	case 6: // exactly 80 00 00 …: the mantissa equals the sign bit and nothing else
+		for i := range b {
+			b[i] = 0
+		}
+		b[0] = 0x80
+		if len(b) > 3 && r.Chance(50) {
+			b[len(b)-1] = byte(r.Intn(2)) // … possibly with a low byte that is shifted out
+		}
 	case 0: // power of 256 boundary
 		for i := range b {
 			b[i] = 0
@@ -173,6 +209,15 @@ func genBig(r *hx.Rand) *big.Int {
 func gen(g *hx.Gen) {
 	r := g.R
 	n := g.N(40000, 2000000)
+	// every exponent with the boundary mantissas, both sign bits
+	for e := uint32(0); e < 256; e++ {
+		for _, m := range []uint32{0, 1, 0xff, 0x100, 0x7fff, 0x8000, 0x8001, 0xffff, 0x10000, 0x120000, 0x7fffff} {
+			g.Emit("rt %x", e<<24|m)
+			if m == 0x8000 || m == 0x7fffff {
+				g.Emit("rt %x", e<<24|m|0x00800000)
+			}
+		}
+	}
 	for i := 0; i < n; i++ {
 		g.Emit("c2b %x", genCompact(r))
 	}
@@ -184,6 +229,16 @@ func gen(g *hx.Gen) {
 		c := genCompact(r)
 		g.Emit("b2c %s", blockchain.CompactToBig(c).String())
 		g.Emit("work %x", c)
+		g.Emit("rt %x", c)
+		// a canonical neighbour: what the encoder itself makes of a random target, perturbed
+		cc := blockchain.BigToCompact(new(big.Int).Abs(genBig(r)))
+		switch r.Intn(4) {
+		case 0:
+			cc ^= 1 << uint(r.Intn(24))
+		case 1:
+			cc = cc&0xff000000 | (0x8000 - uint32(r.Intn(2)))
+		}
+		g.Emit("rt %x", cc)
 	}
 	mainLimit := new(big.Int).Sub(new(big.Int).Lsh(big.NewInt(1), 255), big.NewInt(1))
 	limits := []*big.Int{config.DefaultParams.PowConfiguration.PowLimit, mainLimit, big.NewInt(0xffff), new(big.Int).Lsh(big.NewInt(1), 240)}
@@ -262,13 +317,32 @@ func gen(g *hx.Gen) {
 // Property oracle, judged directly on the implementation's answers.
 func oracle(t []string, out string) *hx.Violation {
 	switch t[0] {
+	case "rt":
+		// decoding a canonical value and re-encoding it is the identity
+		c := u32hex(t[1])
+		if isCanonical(c) {
+			if out == "panic" || strings.Fields(out)[0] != strconv.FormatUint(uint64(c), 16) {
+				return &hx.Violation{Kind: "roundtrip-changed", Detail: "BigToCompact(CompactToBig(c)) != c for canonical c"}
+			}
+		}
 	case "b2c":
 		// encoding never yields a larger target (positive n)
 		n := bigOf(t[1])
 		if n.Sign() > 0 && out != "panic" {
 			c := u32hex(out)
-			if blockchain.CompactToBig(c).Cmp(n) > 0 {
+			back := blockchain.CompactToBig(c)
+			if back.Cmp(n) > 0 {
 				return &hx.Violation{Kind: "encode-larger", Detail: "CompactToBig(BigToCompact(n)) > n"}
+			}
+			if n.BitLen() <= 8*254 {
+				// the encoder only emits canonical values and keeps 15 significant bits
+				if !isCanonical(c) {
+					return &hx.Violation{Kind: "encode-noncanonical", Detail: "BigToCompact(n) is not a canonical compact value"}
+				}
+				slack := new(big.Int).Rsh(back, 15)
+				if new(big.Int).Add(back, slack).Cmp(n) < 0 {
+					return &hx.Violation{Kind: "encode-imprecise", Detail: "CompactToBig(BigToCompact(n)) < n - n/2^15"}
+				}
 			}
 		}
 	case "pow":
@@ -296,6 +370,21 @@ func oracle(t []string, out string) *hx.Violation {
 				if nb.Cmp(hi) > 0 {
 					return &hx.Violation{Kind: "retarget-factor", Detail: "new target above old*adjustmentFactor"}
 				}
+				// lower side: min(old*minSpan/targetSpan, limit) minus the compaction error
+				ts, adj := mustI(t[2]), mustI(t[1])
+				lo := new(big.Int).Mul(old, big.NewInt(ts/adj))
+				lo.Div(lo, big.NewInt(ts))
+				if lo.Cmp(lim) > 0 {
+					lo.Set(lim)
+				}
+				if lim.Sign() >= 0 && lim.BitLen() <= 8*254 {
+					if new(big.Int).Add(nb, new(big.Int).Rsh(nb, 15)).Cmp(lo) < 0 {
+						return &hx.Violation{Kind: "retarget-factor-low", Detail: "new target below min(old/adjustmentFactor, limit) by more than the compaction error"}
+					}
+					if !isCanonical(u32hex(out)) {
+						return &hx.Violation{Kind: "retarget-noncanonical", Detail: "retargeted bits are not canonical"}
+					}
+				}
 			}
 		}
 	}
@@ -308,6 +397,8 @@ func nontrivial(t []string, out string) bool {
 		return out != "0"
 	case "b2c":
 		return out != "0"
+	case "rt":
+		return !strings.HasPrefix(out, "0 ")
 	}
 	return true
 }
